@@ -427,6 +427,13 @@ def gen_lines(ctx):
     # object merges into a destination that is exactly full and holds removed members, every merge form
     for ops in V.full_merge_cases():
         add(ops)
+    # pointer chains of one, two and three hops onto every kind: the typed tests (IsObject ... IsNull, IsNumber,
+    # IsUndefined) and every getter follow all hops
+    for last in (["set 3 N"], ["set 3 T"], ["set 3 F"], ["set 3 n7"], ["set 3 i-7"], ["set 3 r3ff8000000000000"], ["set 3 sa120"],
+                 ["set 3/ka97 n1"], ["app 3 n1"], ["rst 3"], ["typ 3 4"], ["rsv 3 2 2"]):
+        add(last + ["ptr 2 3", "ptr 1 2", "ptr 0 1", "set 3 sa121", "rst 3"])
+        add(["ptr 2 3", "ptr 1 2", "ptr 0 1"] + last)
+        add(last + ["set 0/ka97 n1", "ptr 0/ka98 1", "ptr 1 2", "ptr 2 3", "app 2 n1"])
     # every copying operation on an empty source that owns storage, then a write into the copy
     for ops in V.copy_then_write_cases():
         add(ops)
